@@ -759,6 +759,13 @@ class Exec:
             if default is not NOTHANDLED:
                 return default
             raise ExcSig('AttributeError', f'None.{name}')
+        if isinstance(o, Obj) and o.cls == '__super__':
+            # super(): members of the real base classes that are under contract, else a trusted no-op of an external base class
+            for base in (self.classes[o.f['of_cls']].bases if o.f['of_cls'] in self.classes else []):
+                m = self.class_member(base, name)
+                if isinstance(m, Closure):
+                    return Bound(m, o.f['self_'])
+            return Native(lambda ex, *a, **k: None, f'super().{name} (external base class, trusted no-op)')
         if isinstance(o, Obj):
             if name in o.f:
                 return o.f[name]
@@ -1166,7 +1173,7 @@ class Exec:
             return None
         if isinstance(f, ast.Name) and f.id == 'super' and not e.args:
             fr = env.function_frame()
-            return Obj('__super__', cls=fr.fn.cls, self_=fr.v.get(fr.fn.node.args.args[0].arg))
+            return Obj('__super__', of_cls=fr.fn.cls, self_=fr.v.get(fr.fn.node.args.args[0].arg))
         fn = self.ev(f, env)
         args = []
         for a in e.args:
